@@ -30,13 +30,14 @@ func newPriorityQueue[T any](w *worker[T, iJob[T]], pq IPriorityQueue) *priority
 func (q *priorityQueue[T]) Add(data T, priority int, configs ...JobConfigFunc) (EnqueuedJob, bool) {
 	j := newJob(data, loadJobConfigs(q.w.configs(), configs...))
 
+	// the status is final before the job is published: once it is in the queue the dispatcher may run it at any moment
+	j.changeStatus(queued)
 	if ok := q.internalQueue.Enqueue(j, priority); !ok {
 		j.Close()
 		return nil, false
 	}
 
 	q.w.Metrics().incSubmitted()
-	j.changeStatus(queued)
 	q.w.notifyToPullNextJobs()
 
 	return j, true
@@ -48,13 +49,14 @@ func (q *priorityQueue[T]) AddAll(items []Item[T]) EnqueuedGroupJob {
 	for _, item := range items {
 		j := groupJob.newJob(item.Data, loadJobConfigs(q.w.configs(), WithJobId(item.ID)))
 
+		// the status is final before the job is published: once it is in the queue the dispatcher may run it at any moment
+		j.changeStatus(queued)
 		if ok := q.internalQueue.Enqueue(j, item.Priority); !ok {
 			j.Close()
 			continue
 		}
 
 		q.w.Metrics().incSubmitted()
-		j.changeStatus(queued)
 		q.w.notifyToPullNextJobs()
 	}
 
@@ -90,13 +92,14 @@ func newResultPriorityQueue[T, R any](w *worker[T, iResultJob[T, R]], pq IPriori
 func (q *resultPriorityQueue[T, R]) Add(data T, priority int, configs ...JobConfigFunc) (EnqueuedResultJob[R], bool) {
 	j := newResultJob[T, R](data, loadJobConfigs(q.w.configs(), configs...))
 
+	// the status is final before the job is published: once it is in the queue the dispatcher may run it at any moment
+	j.changeStatus(queued)
 	if ok := q.internalQueue.Enqueue(j, priority); !ok {
 		j.Close()
 		return nil, false
 	}
 
 	q.w.Metrics().incSubmitted()
-	j.changeStatus(queued)
 	q.w.notifyToPullNextJobs()
 
 	return j, true
@@ -108,13 +111,14 @@ func (q *resultPriorityQueue[T, R]) AddAll(items []Item[T]) EnqueuedResultGroupJ
 	for _, item := range items {
 		j := groupJob.newJob(item.Data, loadJobConfigs(q.w.configs(), WithJobId(item.ID)))
 
+		// the status is final before the job is published: once it is in the queue the dispatcher may run it at any moment
+		j.changeStatus(queued)
 		if ok := q.internalQueue.Enqueue(j, item.Priority); !ok {
 			j.Close()
 			continue
 		}
 
 		q.w.Metrics().incSubmitted()
-		j.changeStatus(queued)
 		q.w.notifyToPullNextJobs()
 	}
 
@@ -150,13 +154,14 @@ func newErrorPriorityQueue[T any](w *worker[T, iErrorJob[T]], pq IPriorityQueue)
 func (q *errorPriorityQueue[T]) Add(data T, priority int, configs ...JobConfigFunc) (EnqueuedErrJob, bool) {
 	j := newErrorJob(data, loadJobConfigs(q.w.configs(), configs...))
 
+	// the status is final before the job is published: once it is in the queue the dispatcher may run it at any moment
+	j.changeStatus(queued)
 	if ok := q.internalQueue.Enqueue(j, priority); !ok {
 		j.Close()
 		return nil, false
 	}
 
 	q.w.Metrics().incSubmitted()
-	j.changeStatus(queued)
 	q.w.notifyToPullNextJobs()
 
 	return j, true
@@ -168,13 +173,14 @@ func (q *errorPriorityQueue[T]) AddAll(items []Item[T]) EnqueuedErrGroupJob {
 	for _, item := range items {
 		j := groupJob.newJob(item.Data, loadJobConfigs(q.w.configs(), WithJobId(item.ID)))
 
+		// the status is final before the job is published: once it is in the queue the dispatcher may run it at any moment
+		j.changeStatus(queued)
 		if ok := q.internalQueue.Enqueue(j, item.Priority); !ok {
 			j.Close()
 			continue
 		}
 
 		q.w.Metrics().incSubmitted()
-		j.changeStatus(queued)
 		q.w.notifyToPullNextJobs()
 	}
 
